@@ -33,7 +33,7 @@ ASSUMPTIONS = [
     "as_obj is modelled top-down: a payload position whose id is registered yields the registered object and its payload subtree is not visited",
     "at digest sizes 1 and 2 only the un-suffixed part of a fresh id is required to be deterministic (different contents collide)",
 ]
-MUST_SEE = ["replace_without_changes", "id_determinism_checks_with_occupied_neighbours", 
+MUST_SEE = ["remodelled_class_detach", "replace_without_changes", "id_determinism_checks_with_occupied_neighbours", 
     "op_detach_stale_with_live_twin", "op_replace_fail", "drops", "suffix_ge_2", "detach_depth_ge2", "asobj_recreated",
     "asobj_reused", "digest1_histories", "dead_weakrefs_checked", "replace_on_stale", "id_determinism_checks", "replace_fail_after_registration",
 ]
@@ -475,6 +475,28 @@ def run_shard(ctx):
         h.model.reg.clear()
         del h
     config.ID_DIGEST_SIZE = 8
+    if ctx.only_case is None:
+        remodel_leg(ctx, U)
+        collect()
+
+
+def remodel_leg(ctx, U):
+    """detach() of an instance of a class that was defined again (more child fields) after its first version was used"""
+    from pyoak.node import ASTNode
+    from vlib.universe import remodelled_class
+
+    old, new, leaf = remodelled_class(U, "C03")
+    a, b, c, d = leaf(v=11), leaf(v=12), leaf(v=13), leaf(v=14)
+    n = new(first=a, second=(b, c), third=d, v=5)
+    ids = [x.id for x in (n, a, b, c, d)]
+    ctx.evaluations += 1
+    ctx.count("remodelled_class_detach")
+    if any(ASTNode.get_any(i) is None for i in ids):
+        ctx.violation("registry-vs-model", "nodes of a tree over a re-defined class are not all registered", {"class": new.__name__})
+    n.detach()
+    left = [i for i in ids if ASTNode.get_any(i) is not None]
+    if left:
+        ctx.violation("registry-vs-model", "detach() of a node whose class was defined again (more child fields) left descendants registered", {"class": new.__name__, "still_registered": len(left), "fields": ["first", "second", "third"]})
 
 
 def merge(extras, counters):
